@@ -768,3 +768,27 @@ func init() {
 		Direct: directC20conv,
 	})
 }
+
+// C20 = the three sub-checks in one run (what `./check C20` executes).
+func init() {
+	register(&Prop{
+		ID: "C20",
+		Rule: "union of C20f64 (soft-float vs Go, bit for bit), C20val (value laws on pairs of values) and C20conv (data.NewWith on Go " +
+			"values built with reflect over every kind, both LowerCamel settings); non-trivial as defined by each sub-check",
+		Gen: func(g *G) {
+			genF64(g)
+			genC20val(g)
+			genC20conv(g)
+		},
+		Oracle: func(c *Case, impl string) *Viol {
+			switch {
+			case strings.HasPrefix(c.Req, "vlaws"), strings.HasPrefix(c.Req, "vecho"):
+				return oracleC20val(c, impl)
+			case strings.HasPrefix(c.Req, "convert"), strings.HasPrefix(c.Req, "gecho"), strings.HasPrefix(c.Req, "lowerfirst"):
+				return oracleC20conv(c, impl)
+			}
+			return nil
+		},
+		Direct: directC20conv,
+	})
+}
